@@ -531,6 +531,12 @@ def run(ctx):
         ("question: hint", iq_, {"type": "text", "label": "L", "hint": "was ${last-saved#x}", "bind": {"type": "string"}, "default": None, "choice_filter": None}, True),
         ("question: constraint message", iq_, {"type": "text", "label": "L", "bind": {"type": "string", "jr:constraintMsg": "not ${last-saved#x}"}, "default": None, "choice_filter": None}, True),
         ("question: instance attribute", iq_, {"type": "text", "label": "L", "bind": {"type": "string"}, "instance": {"x": "${last-saved#x}"}, "default": None, "choice_filter": None}, True),
+        ("question: guidance hint", iq_, {"type": "text", "label": "L", "guidance_hint": "see ${last-saved#x}", "bind": {"type": "string"}, "default": None, "choice_filter": None}, True),
+        ("question: translated constraint message", iq_, {"type": "text", "label": "L", "bind": {"type": "string", "jr:constraintMsg": {"en": "ok", "fr": "pas ${last-saved#x}"}}, "default": None, "choice_filter": None}, True),
+        ("question: translated hint", iq_, {"type": "text", "label": {"en": "L"}, "hint": {"en": "h", "fr": "${last-saved#x}"}, "bind": {"type": "string"}, "default": None, "choice_filter": None}, True),
+        ("group: label", gcls_, {"type": "group", "label": "G ${last-saved#x}", "bind": None, "control": None}, True),
+        ("repeat: translated label", rcls_, {"type": "repeat", "label": {"en": "R ${last-saved#x}"}, "bind": None, "control": None}, True),
+        ("question: text cells with plain references only", iq_, {"type": "text", "label": {"en": "L ${x}"}, "hint": "h ${x}", "bind": {"type": "string", "jr:constraintMsg": "not ${x}"}, "instance": {"x": "${x}"}, "default": None, "choice_filter": None}, False),
     ]
     for desc, ci_, attrs, want in extra_cases:
         el_ = _mk7b(ctx, ci_, "e", **attrs)
